@@ -20,7 +20,7 @@ def run(tier):
                           mc_depth_quick=6, mc_depth_thorough=8,
                           profile={"wake": 22, "req": 16, "set": 20, "child": 14, "idreq": 6, "config": 5, "time": 5,
                                    "fwcfg": 4, "garbage": 2, "invalid": 3},
-                          nontrivial=_sleeping_traffic)
+                          scripts=gwfocus.falsy_scripts(), nontrivial=_sleeping_traffic)
     return chk.run()
 
 
